@@ -58,6 +58,9 @@ def numeric_ref(t):
     return '&#' + body + (';' if not t.chance(30) else '')
 
 
+# task-list markers of other dialects: plain text here
+INLINE += ['[ ] ', '[x] ', '[X] ', '[x]', '[ ]\t']
+CONTAINER_PREFIXES += ['- [x] ', '1. [ ] ', '* [X] ']
 # code spans that name a language the way other Markdown dialects do (inline highlighting conventions): plain code here
 INLINE += ['`#!python import os`', '`#!js var x = 1;`', '`:::python x = 1`', '`{.c} int x;`', '``#!bash echo `date` ``', '`#!/bin/sh`', '`python print(1)`']
 INLINE += ['\\begin{equation}', '\\end{equation}', '\\begin{align*}', '\\(', '\\[', 'data:image/png;base64,', '</pre></div>', '<div class="highlight"><pre>', '\u0663.', '\u0967)', '\uff11.', '</body>', '<body>', '</html>', '<head>', '</script>', '<title>', 'a\tb', 'foo\tbar', 'x\t', 'a>\tb', 'q>\t', '&#1114111;', '&#1114112;', '&#x10FFFF;', '&#x110000;', '&#xD800;', '&#9999999;', '&#xFFFFFF;', '&#128;', '&#x80;', '\x00', '\ufeff']
